@@ -129,6 +129,14 @@ def _standin(rep, tier, seed, only_search=False):
                 if only_search:
                     return
                 break
+    # many points times many directions (beyond 2^20 point-directions, where implementations start to work in blocks), M not a round number
+    for (k1, k2, M) in ([(300, 320, 1777)] if tier == "quick" else [(300, 320, 1777), (600, 600, 1500), (700, 500, 1001)]):
+        P1, P2 = _rand(rng, k1, 0, 50), _rand(rng, k2, 0, 50)
+        ok = _case(rep, P1, P2, M, "large")
+        evals += 1
+        distinct.add(("large", k1, k2, M))
+        if only_search and not ok:
+            return
     # shared operands: the same float64 arrays used in several calls (pairwise matrices, triangle checks); every call must still
     # return the distance of the diagrams as the caller built them
     for it in range(25 if tier == "quick" else 500):
